@@ -443,6 +443,21 @@ func (u *Unit) specCall(x *ast.CallExpr, env *Env, sc *specCtx) Value {
 			return Value{Forall([]Term{bv}, Imp(rng, body.Term)), boolT}
 		}
 		return Value{Exists([]Term{bv}, And(rng, body.Term)), boolT}
+	case "forall2":
+		// forall2(k, lo, hi, l, lo2, hi2, body): one quantifier over two integer variables
+		n1 := x.Args[0].(*ast.Ident).Name
+		n2 := x.Args[3].(*ast.Ident).Name
+		b1 := u.D.Bound(n1, SInt)
+		b2 := u.D.Bound(n2, SInt)
+		lo1 := u.sv(x.Args[1], env, sc)
+		hi1 := u.sv(x.Args[2], env, sc)
+		sc1 := u.withBound(sc, n1, Value{b1, intT})
+		lo2 := u.sv(x.Args[4], env, sc1)
+		hi2 := u.sv(x.Args[5], env, sc1)
+		sc2 := u.withBound(sc1, n2, Value{b2, intT})
+		body := u.sv(x.Args[6], env, sc2)
+		rng := And(le(lo1.Term, b1), lt(b1, hi1.Term), le(lo2.Term, b2), lt(b2, hi2.Term))
+		return Value{Forall([]Term{b1, b2}, Imp(rng, body.Term)), boolT}
 	case "forallv", "existsv", "forallr", "existsr", "foralls":
 		name := x.Args[0].(*ast.Ident).Name
 		var s Sort = SVal
@@ -486,6 +501,13 @@ func (u *Unit) specCall(x *ast.CallExpr, env *Env, sc *specCtx) Value {
 	case "base":
 		v := u.sv(x.Args[0], env, sc)
 		return Value{sBase(v.Term), nil}
+	case "birth":
+		v := u.sv(x.Args[0], env, sc)
+		r := v.Term
+		if v.Sort == SSlice {
+			r = sBase(v.Term)
+		}
+		return Value{u.birth(r), intT}
 	case "off":
 		v := u.sv(x.Args[0], env, sc)
 		return Value{sOff(v.Term), intT}
@@ -546,6 +568,40 @@ func (u *Unit) specCall(x *ast.CallExpr, env *Env, sc *specCtx) Value {
 		key := strings.Join(strings.Fields(nodeString(token.NewFileSet(), x.Args[0])), " ")
 		mode := strings.Trim(nodeString(token.NewFileSet(), x.Args[1]), "\"")
 		return Value{boolTerm(env.held[key] == mode), boolT}
+	case "_ki", "_visited", "_keyat":
+		if len(u.mapIter) == 0 {
+			unsup("%s outside a range-over-map loop", fname)
+		}
+		mi := u.mapIter[len(u.mapIter)-1]
+		a := u.sv(x.Args[0], env, sc)
+		if fname == "_keyat" {
+			return Value{Select(mi.enum, a.Term), mi.keyTy}
+		}
+		a = u.convert(a, mi.keyTy, env)
+		kiT := App(mi.ki, SInt, a.Term)
+		if fname == "_ki" {
+			return Value{kiT, intT}
+		}
+		cur, ok := env.alias["_i"]
+		if !ok {
+			unsup("_visited without loop counter")
+		}
+		return Value{And(Select(mi.dom0, a.Term), lt(kiT, cur)), boolT}
+	case "unchangedmap":
+		m := u.sv(x.Args[0], env, sc)
+		n := *sc
+		n.post = false
+		mo := u.sv(x.Args[0], sc.old, &n)
+		mt, ok := types.Unalias(m.Ty).Underlying().(*types.Map)
+		if !ok {
+			unsup("unchangedmap on non-map")
+		}
+		kx := u.D.Bound("kx", u.sortOf(mt.Key()))
+		v1, ok1 := u.mapGet(env, m.Term, mt, kx)
+		v0, ok0 := u.mapGet(sc.old, mo.Term, mt, kx)
+		ln1 := Ite(Same(m.Term, Term{"nil_Ref", SRef}), IntLit(0), u.mapLen(env, m.Term))
+		ln0 := Ite(Same(mo.Term, Term{"nil_Ref", SRef}), IntLit(0), u.mapLen(sc.old, mo.Term))
+		return Value{And(Same(ln1, ln0), Forall([]Term{kx}, And(Same(ok1, ok0), Imp(ok1, Same(v1, v0))))), boolT}
 	case "store":
 		a := u.sv(x.Args[0], env, sc)
 		i := u.sv(x.Args[1], env, sc)
